@@ -539,10 +539,15 @@ static std::vector<T> g_storage;
 static void run_generated(std::uint64_t seed, long nprog, bool rebased) {
 	Rng rng(seed);
 	for(long p = 0; p < nprog; ++p) {
-		int D = 1 + rng.pick({20, 35, 30, 15});
+		// "permutation" programs: a whole array of D = 3..4 with extents 2..3 under a chain of rotated / unrotated / transposed only.
+		// Such views are compact (no gaps) but not in canonical order whichever dimensions are exchanged (leading, inner or the
+		// MIDDLE ones of a 4-D array): the layouts on which a shortcut keyed on a few strides goes wrong; random chains of all
+		// operations reach the 4-D middle exchange too rarely.
+		bool const perm = rng.coin(12);
+		int D = perm ? 3 + (rng.coin(70) ? 1 : 0) : 1 + rng.pick({20, 35, 30, 15});
 		std::vector<Ex> ex; long ne = 1;
 		for(int k = 0; k < D; ++k) {
-			long sz = (long[]){0, 1, 2, 3, 4, 5, 6}[rng.pick({12, 16, 22, 20, 16, 8, 6})];
+			long sz = perm ? rng.range(2, 3) : (long[]){0, 1, 2, 3, 4, 5, 6}[rng.pick({12, 16, 22, 20, 16, 8, 6})];
 			if(ne * sz > 240) sz = 2;
 			ne *= sz;
 			long f = rebased ? rng.range(-3, 3) : 0;
@@ -560,11 +565,13 @@ static void run_generated(std::uint64_t seed, long nprog, bool rebased) {
 		std::fprintf(fprog, "%s\n", rl.c_str());
 		AnyView cur = make_root_any(ex, make_ptr(base));
 		if(rng.coin(50)) emit_queries(cur, 0, rng, false);
-		int nops = static_cast<int>(rng.range(0, 7));
+		int nops = perm ? static_cast<int>(rng.range(2, 6)) : static_cast<int>(rng.range(0, 7));
 		int src = 0;
 		for(int k = 0; k < nops; ++k) {
 			Op op;
-			bool ok = std::visit([&](auto const& s) { return gen_op(s, rng, rebased, op); }, cur);
+			bool ok = true;
+			if(perm) { op = Op{}; op.name = (char const*[]){"rotated", "unrotated", "transposed"}[rng.pick({35, 30, 35})]; }
+			else ok = std::visit([&](auto const& s) { return gen_op(s, rng, rebased, op); }, cur);
 			if(!ok) break;
 			std::fprintf(fprog, "%s\n", op_line(1, src, op).c_str());
 			bool cq = rng.coin(50);
